@@ -748,6 +748,59 @@ func (a *AuthenticateASCII) continueOf(request tq.Request) *tq.AuthenContinue {
 }
 
 // AuthenticateContinueStop looks for flags`}}})
+	addMutant(Mutant{Name: "c07-header-type-zero-accepted", Props: []string{"C07", "C01"}, Rule: "R-ENUM", KeySub: "HeaderType",
+		Why: "the packet type validator accepts everything below 4, including the undefined type 0: an invalid header reaches a handler",
+		Edits: []Edit{{File: "header_fields.go", Old: `	switch t {
+	case Authenticate, Authorize, Accounting:
+		return nil
+	}
+	return fmt.Errorf("unknown HeaderType value [%v]", t)`, New: `	if t <= Accounting {
+		return nil
+	}
+	return fmt.Errorf("unknown HeaderType value [%v]", t)`}}})
+	addMutant(Mutant{Name: "c10-abort-compared-as-whole-octet", Props: []string{"C10"}, Rule: "R-ABORT", KeySub: "abort-first",
+		Why: "the abort flag is compared as the whole flag octet: a CONTINUE with the abort bit and another bit set is handed on and can end in PASS",
+		Edits: []Edit{{File: "cmds/server/handlers/authen_ascii.go", Old: `	if body.Flags.Has(tq.AuthenContinueFlagAbort) {`, New: `	if body.Flags == tq.AuthenContinueFlagAbort {`}}})
+	addMutant(Mutant{Name: "c12-sink-write-deferred", Props: []string{"C12"}, Rule: "R-ORDER", KeySub: "sink-before-success",
+		Why: "the sink write is deferred: the SUCCESS reply is on the wire before the record is written",
+		Edits: []Edit{{File: "cmds/server/config/accounters/local/local.go", Old: `	a.sink.Printf("%s", jsonLog)`, New: `	defer a.sink.Printf("%s", jsonLog)`}}})
+	addMutant(Mutant{Name: "c18-record-stops-at-first-absent-key", Props: []string{"C18"}, Rule: "R-OBSCURE", KeySub: "Record",
+		Why: "the reference logger stops hiding at the first listed key the record does not have: later listed keys are logged in clear",
+		Edits: []Edit{{File: "cmds/server/log/log.go", Old: `		if _, ok := r[key]; ok {
+			r[key] = "<obscured>"
+		}`, New: `		if _, ok := r[key]; !ok {
+			break
+		}
+		r[key] = "<obscured>"`}}})
+	addMutant(Mutant{Name: "c04-header-field-validator-error-dropped", Props: []string{"C04"}, Rule: "R-VALIDATE-FIELDS", KeySub: "Header.Validate",
+		Why: "Header.Validate runs the field validators but drops their error: headers with an unknown type or version decode without error",
+		Edits: []Edit{{File: "header.go", Old: `	for _, t := range []Field{h.Version, h.Type, h.SeqNo} {
+		if err := t.Validate(nil); err != nil {
+			return err
+		}
+	}`, New: `	for _, t := range []Field{h.Version, h.Type, h.SeqNo} {
+		if err := t.Validate(nil); err != nil {
+			err = fmt.Errorf("header: %w", err)
+		}
+	}`}}})
+	addMutant(Mutant{Name: "c02-arg-decoder-skips-empty-arguments", Props: []string{"C02", "C01"}, Rule: "R-LAYOUT", KeySub: "AuthorReply:decoder",
+		Why: "the argument loop of a decoder skips zero-length arguments: a legal empty argument is lost on decode",
+		Edits: []Edit{{File: "authorize.go", Old: `	for _, n := range argLens {
+		a.Args = append(a.Args, Arg(buf.string(n)))
+	}
+	// detect secret mismatch
+	if a.Len() != serverMsgLen+dataLen+totalArgLen {`, New: `	for _, n := range argLens {
+		if n == 0 {
+			continue
+		}
+		a.Args = append(a.Args, Arg(buf.string(n)))
+	}
+	// detect secret mismatch
+	if a.Len() != serverMsgLen+dataLen+totalArgLen {`}}})
+	addMutant(Mutant{Name: "c15-build-reuses-the-previous-list", Props: []string{"C15", "C16"}, Rule: "R-FRESHDECODE", KeySub: "builder-allocates",
+		Why: "the provider build takes over the storage of the list it is replacing: lookups in flight read elements being overwritten",
+		Edits: []Edit{{File: "cmds/server/loader/loader.go", Old: `	providers := make([]tq.SecretProvider, 0, len(c.Secrets))`, New: `	providers := l.lastBuilt[:0]`}, {File: "cmds/server/loader/loader.go", Old: `type Loader struct {`, New: `type Loader struct {
+	lastBuilt []tq.SecretProvider`}}})
 	addMutant(Mutant{Name: "c14-asv-without-negative-check", Props: []string{"C14"}, Rule: "R-BOUNDS", KeySub: "ASV",
 		Why: "Arg.ASV slices at the separator index without handling 'not found'",
 		Edits: []Edit{{File: "authorize_fields.go", Old: `	if i < 0 {
